@@ -1,5 +1,7 @@
 import Netpoll.Poll.ExitLemmas
 import Netpoll.Poll.WakeLemmas
+import Netpoll.Poll.HupFlagLemmas
+import Netpoll.Poll.HupBatchLemmas
 /-!
 # C11 – the poller dispatches each descriptor's events completely and in order
 
@@ -303,6 +305,67 @@ example : (handleEvent 0 conn free inHup eofOnly).hup.isSome = true ∧
 
 /-- and when bytes were read in this event the hang-up is left for the next wake-up -/
 example : (handleEvent 0 conn free inHup dataThenEof).hup = none := by decide
+
+/-- **A reported hang-up is acted on.**  An event that carries the hang-up condition, for an ordinary operator whose token was
+free, ends in `appendHup` (the callback is queued – and run, by `C11_hup_reported` –, the descriptor deregistered, the detach
+counter taken) unless an `InputAck` of this very event carried a non-zero count.  `handleEvent` starts every event with
+`totalRead = 0`: what earlier descriptors of the batch delivered cannot keep a later one from being hung up (clause
+`hupActedOn` of the spec oracle judges the implementation on exactly this). -/
+theorem C11_hup_flag_acted_on (b : Nat) (op : Op) (st : OpSt) (t : Trig) (sc : Script)
+    (h1 : st.state = 1) (hw : op.wake = false) (hh : t.hup = true)
+    (hs : (handleEvent b op st t sc).stuck = false) (hz : nzAcksOf (handleEvent b op st t sc).tr = []) :
+    (handleEvent b op st t sc).hup = some op.onHup ∧
+      (handleEvent b op st t sc).st.detached = st.detached + 1 ∧
+      Cb.hupQueued op.onHup ∈ (handleEvent b op st t sc).tr ∧
+      Cb.detach (st.detached == 0) ∈ (handleEvent b op st t sc).tr := by
+  have hs' : (body op t sc).stuck = false := by
+    by_cases hb : (body op t sc).stuck = true
+    · simp [handleEvent, h1, hw, hb] at hs
+    · simpa using hb
+  have hc := handleEvent_conn b op st t sc h1 hw hs'
+  have hzb : nzAcksOf (body op t sc).tr = [] := by
+    rw [hc.1, nzAcksOf_append] at hz
+    exact (List.append_eq_nil_iff.1 hz).1
+  have hb := body_hup_of_no_nz op t sc hh hs' hzb
+  rw [hc.1, hc.2.1, hc.2.2.1]
+  simp [hb, hupTail]
+
+/-- **… whatever the rest of the batch delivered.**  In a batch `pre ++ e :: post` in which the events in front of `e` belong to
+other operators and do not end the loop (no close message, no system call left hanging), `e` – hang-up condition set, token
+free, nothing non-zero acknowledged for `e` itself – is hung up: its `OnHup` is queued (and run, `C11_hup_reported`) and the
+descriptor is deregistered, however many bytes the descriptors in front of it delivered. -/
+theorem C11_hup_acted_on_in_batch (b : Nat) (st : Nat → OpSt) (pre post : List Ev) (e : Ev)
+    (hid : e.id ∉ pre.map (·.id))
+    (hx : (handleLoop b st [] pre).exit = false) (hs : (handleLoop b st [] pre).stuck = false)
+    (h1 : (st e.id).state = 1) (hw : e.op.wake = false) (hh : e.trig.hup = true)
+    (hse : (handleEvent 0 e.op (st e.id) e.trig e.sc).stuck = false)
+    (hz : nzAcksOf (handleEvent 0 e.op (st e.id) e.trig e.sc).tr = []) :
+    (e.id, Cb.hupQueued e.op.onHup) ∈ (handleBatch b st (pre ++ e :: post)).tr ∧
+    (e.id, Cb.detach ((st e.id).detached == 0)) ∈ (handleBatch b st (pre ++ e :: post)).tr := by
+  have hs' : (body e.op e.trig e.sc).stuck = false := by
+    by_cases hb : (body e.op e.trig e.sc).stuck = true
+    · simp [handleEvent, h1, hw, hb] at hse
+    · simpa using hb
+  have hc := handleEvent_conn 0 e.op (st e.id) e.trig e.sc h1 hw hs'
+  have hzb : nzAcksOf (body e.op e.trig e.sc).tr = [] := by
+    rw [hc.1, nzAcksOf_append] at hz
+    exact (List.append_eq_nil_iff.1 hz).1
+  have hb := body_hup_of_no_nz e.op e.trig e.sc hh hs' hzb
+  have hq : ∀ c ∈ hupTail e.op (st e.id), ∀ b', c ∈ (handleEvent b' e.op (st e.id) e.trig e.sc).tr := by
+    intro c hcm b'
+    rw [handleEvent_conn_buf b' 0 _ _ _ _ hw, hc.1]
+    simp only [hb, if_true]
+    exact List.mem_append_right _ hcm
+  rw [(batch_fields b st (pre ++ e :: post)).1]
+  exact ⟨loop_mem_later e post _ pre b st [] hid hx hs (hq _ (by simp [hupTail])),
+         loop_mem_later e post _ pre b st [] hid hx hs (hq _ (by simp [hupTail]))⟩
+
+/-- a hang-up without the readable flag and a readable hang-up at EOF are both acted on … -/
+example : (handleEvent 0 conn free { rd := false, wr := true, hup := true, err := false } {}).hup = some true ∧
+    (handleEvent 0 conn free inHup eofOnly).hup = some true := by decide
+/-- … also behind a descriptor that delivered bytes in the same batch -/
+example : (2, Cb.onHupRun) ∈ (handleBatch 0 allFree [dataEv 1, { id := 2, op := conn, trig := { rd := false, wr := true, hup := true, err := false }, sc := {} }]).full := by
+  decide
 
 /-- **Every queued hang-up is reported.**  In a batch of distinct operators every operator that went
 through `appendHup` with a non-nil `OnHup` has it run (exactly once by `C11_hup_once_after_detach`),
